@@ -142,6 +142,7 @@ type Interp struct {
 	tail     []pendingOb
 	batchDepth int
 	curHarness bool
+	nAssertSamples int
 	selClosed map[ssa.Instruction]map[int]*Term
 	prop     string
 	skipped  int
@@ -246,6 +247,26 @@ func (in *Interp) finding(kind, label string) {
 	in.findings = append(in.findings, Finding{Kind: kind, Label: label, Model: in.solver.Model(in.vars), Where: in.curInstr})
 }
 
+// sample keeps a few obligations for the evidence file: assertions of the property first.
+func (in *Interp) sample(kind, label string) {
+	s := kind + ": " + label
+	for _, x := range in.samples {
+		if x == s {
+			return
+		}
+	}
+	if kind == "assert" {
+		if in.nAssertSamples < 8 {
+			in.nAssertSamples++
+			in.samples = append([]string{s}, in.samples...)
+		}
+		return
+	}
+	if len(in.samples)-in.nAssertSamples < 4 {
+		in.samples = append(in.samples, s)
+	}
+}
+
 // knownFor returns the listed known findings that may explain a failure of (kind,label) in this entry.
 func (in *Interp) knownFor(kind, label string) []KnownSpec {
 	var out []KnownSpec
@@ -337,9 +358,7 @@ func (in *Interp) flush1(list []pendingOb) {
 		in.obligations += len(list)
 		in.discharged += len(list)
 		for _, p := range list {
-			if len(in.samples) < 12 {
-				in.samples = append(in.samples, p.kind+": "+p.label)
-			}
+			in.sample(p.kind, p.label)
 			in.assume(Implies(p.g, Not(p.bad)))
 		}
 		return
@@ -358,9 +377,7 @@ func (in *Interp) obligation1(g *Term, kind, label string, bad *Term) {
 		return
 	}
 	in.obligations++
-	if len(in.samples) < 12 {
-		in.samples = append(in.samples, kind+": "+label)
-	}
+	in.sample(kind, label)
 	if !in.satK("oblig-"+kind, g, bad) {
 		in.discharged++
 		in.assume(Implies(g, Not(bad)))
